@@ -46,12 +46,20 @@ pub struct CaseProbe {
 }
 
 thread_local! {
+    /// Ill-behaved parties are switched off while the sink has a *transient* fault: that is the one regime in
+    /// which the way a correct implementation cuts its output into write calls becomes visible (an error-ignoring
+    /// party resumes writing after a failure that hit one particular write call), and a check must not depend on
+    /// the cut. Persistent sink faults and failing sub-parties stay in: there the cut cannot show.
+    static LENIENT_OK: Cell<bool> = const { Cell::new(true) };
     static SIDE: Cell<Side> = const { Cell::new(Side::Ref) };
     static PROBE: RefCell<CaseProbe> = RefCell::new(CaseProbe::default());
 }
 
 pub fn side() -> Side {
     SIDE.with(|s| s.get())
+}
+pub fn set_lenient_ok(ok: bool) {
+    LENIENT_OK.with(|c| c.set(ok));
 }
 pub fn set_side(s: Side) {
     SIDE.with(|c| c.set(s));
@@ -370,7 +378,9 @@ impl Script {
         let mut first_err: Option<fmt::Error> = None;
         for a in &self.0 {
             if let Action::Lenient(k) = a {
-                mode = *k;
+                if LENIENT_OK.with(|c| c.get()) {
+                    mode = *k;
+                }
                 continue;
             }
             let step = a.run(f);
